@@ -351,3 +351,16 @@ for _p in ('C09', 'C10', 'C19'):
 TECHNIQUE['C09'] = 'property-based testing with fault injection (generated EINTR/EAGAIN/short-transfer plans) against a stream/datagram oracle; single-fault enumeration'
 TECHNIQUE['C10'] = 'stateful property-based testing (rapidcheck) against a reference state machine, with system-call counting'
 TECHNIQUE['C19'] = 'fault injection enumeration (EINTR at every k-th invocation per call site) + generated signal storms, metamorphic oracle (same outcome as without signals)'
+
+# ---- libFuzzer targets (coverage-guided, structure-aware decode into the same case structures) -----------
+_FUZZLINK = dict(config='clang-fuzz', cxxflags='-DVERIF_FUZZ', linkflags='-fsanitize=fuzzer')
+harness('tree_fuzz', 'engines/seq/tree.cpp', libs='-lrapidcheck', **_FUZZLINK)
+harness('htlist_fuzz', 'engines/seq/htlist.cpp', libs='-lrapidcheck', **_FUZZLINK)
+harness('ini_fuzz', 'engines/seq/ini.cpp', libs='-lrapidcheck', **_FUZZLINK)
+harness('sockaddr_fuzz', 'engines/seq/sockaddr.cpp', libs='-lrapidcheck', **_FUZZLINK)
+harness('hash_fuzz', 'engines/seq/hash.cpp', libs='-lrapidcheck -lcrypto -lnettle', **_FUZZLINK)
+for _pid, _h, _ml in (('C12', 'tree_fuzz', 1024), ('C13', 'tree_fuzz', 1024), ('C14', 'tree_fuzz', 1024), ('C15', 'htlist_fuzz', 2048), ('C16', 'ini_fuzz', 6000), ('C17', 'sockaddr_fuzz', 128), ('C11', 'hash_fuzz', 512)):
+    PROPS[_pid].subs.append(Sub('fuzz', _h, shards=(4, 16), cases=(1, 1), kind='fuzz', fuzz=dict(secs=(12, 300), max_len=_ml), timeout=(300, 1200)))
+    PROPS[_pid].rule += ' libFuzzer sub-run: coverage-guided campaign (clang, ASan+UBSan, sync atomics) whose bytes are decoded into the same case structure and run through the same oracle; 4 x 12 s quick, 16 x 300 s thorough; fresh corpus' + (' + committed seed inputs' if _pid == 'C16' else '') + '.'
+    TECHNIQUE[_pid] += ' + coverage-guided fuzzing (libFuzzer, structure-aware decode, same oracle)'
+ENGINES.append(dict(name='fuzz', path='engines/seq (built with -DVERIF_FUZZ)', serves_properties=['C11', 'C12', 'C13', 'C14', 'C15', 'C16', 'C17'], kind_free_text='libFuzzer targets sharing case structure and oracle with the rapidcheck harnesses'))
